@@ -18,17 +18,17 @@ import (
 func init() { register("C11", false, checkC11) }
 
 type c11 struct {
-	c                                     *Ctx
-	info                                  *types.Info
-	treeT, nodeT, entryT                  *types.Named
-	root, height, size                    *types.Var
-	entries, parent, level, leaf          *types.Var
-	bb, child, obj                        *types.Var
-	fold                                  *types.Func // envelope of a node's entries
-	split                                 *types.Func
-	pure                                  map[*types.Func]int
-	pkgFuncs                              []*types.Func
-	r3name                                string // rule id under which the envelope-maintenance obligations are filed (C11.R3, or C12.R5 when run as a premise of the nearest-neighbour bounds)
+	c                            *Ctx
+	info                         *types.Info
+	treeT, nodeT, entryT         *types.Named
+	root, height, size           *types.Var
+	entries, parent, level, leaf *types.Var
+	bb, child, obj               *types.Var
+	fold                         *types.Func // envelope of a node's entries
+	split                        *types.Func
+	pure                         map[*types.Func]int
+	pkgFuncs                     []*types.Func
+	r3name                       string // rule id under which the envelope-maintenance obligations are filed (C11.R3, or C12.R5 when run as a premise of the nearest-neighbour bounds)
 }
 
 func checkC11(c *Ctx) {
@@ -788,9 +788,9 @@ func (a *c11) r3() {
 	}
 	// mutation sites: X.entries = … where X is not a node created in this function
 	type site struct {
-		fn  *types.Func
-		as  *ast.AssignStmt
-		X   ast.Expr
+		fn *types.Func
+		as *ast.AssignStmt
+		X  ast.Expr
 	}
 	mutators := map[*types.Func][]site{}
 	for _, fn := range a.pkgFuncs {
